@@ -94,6 +94,8 @@ def run(ctx, rep):
     from . import sib
     sib.m4(F, rep)
     sib.resets(F, rep, "M9")
+    from . import c04 as _c04
+    _c04.rejections_rule(ctx, rep, "M11")
     # M6: the block writer that reconstruction ends in (shared with C07/W2): reference tokens keep their distance,
     # every bit write fits the 32-bit bit buffer
     from . import c07
